@@ -451,6 +451,7 @@ func (svr *Server) handleConnection(c io.Closer) (svc *service, err error) {
 	svr.mu.Lock()
 	svr.svcs = append(svr.svcs, svc)
 	svr.mu.Unlock()
+	verifEvent("admit", svc, 0, 0, 0, svc.sess.ID())
 
 	log.Debugf("(%s) Connection established", svc.cid())
 
